@@ -263,6 +263,8 @@ async def log_session(loop: vloop.VirtualLoop, ctx, tmpdir: str, idx: int) -> No
     n = rng.randint(30, 60)
     air = airmod.Air(loop)
     first: list[tuple[str, str]] = []
+    live_pkts: list[Any] = []
+    replayed_pkts: list[Any] = []
     second: list[tuple[str, str]] = []
     sent: list[str] = []
     with clocks_patched():
@@ -273,7 +275,7 @@ async def log_session(loop: vloop.VirtualLoop, ctx, tmpdir: str, idx: int) -> No
         port = air.add_port("18:006402")
         with serial_patched():
             gwy = Gateway(port.name, config={"disable_discovery": True}, packet_log={"file_name": path})
-            gwy.add_msg_handler(lambda m: first.append((m._pkt.dtm.isoformat(timespec="microseconds"), str(m._pkt))))
+            gwy.add_msg_handler(lambda m: (first.append((m._pkt.dtm.isoformat(timespec="microseconds"), str(m._pkt))), live_pkts.append(m._pkt)))
             await gwy.start()
         gwy._vrf_port = port
         for k in range(n):
@@ -311,7 +313,7 @@ async def log_session(loop: vloop.VirtualLoop, ctx, tmpdir: str, idx: int) -> No
 
     lines = gen.read_log(__import__("pathlib").Path(path))
     gwy2 = harness.file_gateway(lines, config={"disable_discovery": True})
-    gwy2.add_msg_handler(lambda m: second.append((m._pkt.dtm.isoformat(timespec="microseconds"), str(m._pkt))))
+    gwy2.add_msg_handler(lambda m: (second.append((m._pkt.dtm.isoformat(timespec="microseconds"), str(m._pkt))), replayed_pkts.append(m._pkt)))
     await asyncio.wait_for(gwy2.start(), timeout=60)
     await vloop.drain(loop)
     await gwy2.stop()
@@ -331,6 +333,22 @@ async def log_session(loop: vloop.VirtualLoop, ctx, tmpdir: str, idx: int) -> No
             {"live": [f for _, f in first][:6], "replayed": [f for _, f in second][:6], "n_live": len(first), "n_replayed": len(second)},
         )
         return
+    # 'an equal packet': the packet object that was logged (and is still held by whoever received it) compares
+    # equal to the one read back, in both directions, and still prints as the same frame
+    for a, b in zip(live_pkts, replayed_pkts):
+        ctx.count("log.objects_compared")
+        try:
+            ok = (a == b) and (b == a) and str(a) == str(b)
+            why = "compares unequal"
+        except Exception as err:  # noqa: BLE001
+            ok, why = False, f"comparison raised {type(err).__name__}: {err}"[:120]
+        if not ok:
+            ctx.violate(
+                "C02|log-replay|logged-packet-not-equal-to-replayed-packet",
+                "the packet object that was written to the log does not compare equal to the packet read back from the log",
+                {"why": why, "replayed": str(b)},
+            )
+            break
     diffs = [(a, b) for a, b in zip(first, second) if a[0] != b[0]]
     if diffs:
         ctx.violate(
